@@ -256,6 +256,15 @@ def family_flowsheets(rng, n):
     # staggered loops plus one loop spanning them all
     if n >= 4:
         fams.append(('staggered+outer', c + [(i + 1, i) for i in range(1, n - 2)] + [(n - 1, 0)]))
+    # clover: petals 0 -> i -> 0 around a hub and one loop hanging off a petal (loops that are merged into an
+    # inserted loop by _insert_recycle_network)
+    if n >= 5:
+        fams.append(('clover', [(0, 1), (1, 0), (0, 2), (2, 0), (1, 3)] + [(i, i + 1) for i in range(3, n - 1)] + [(n - 1, 1)]))
+        fams.append(('clover_b', [(0, 1), (1, 0), (0, 2), (2, 0), (2, 3)] + [(i, i + 1) for i in range(3, n - 1)] + [(n - 1, 1)]))
+    # the flowsheet of the third minimised defect and its mirror
+    if n == 5:
+        fams.append(('interlock', [(4, 3), (4, 2), (3, 1), (3, 4), (1, 0), (0, 3), (2, 4)]))
+        fams.append(('interlock_b', [(0, 1), (0, 2), (1, 3), (1, 0), (3, 4), (4, 1), (2, 0)]))
     # ladder: two chains a_i, b_i with rungs a_i -> b_i and returns b_{i+1} -> a_i
     if n >= 4 and n % 2 == 0:
         m = n // 2
@@ -271,7 +280,8 @@ def feed_variants(n):
 
 def priority(name):
     """families whose loops are chained / interlocked: these get every ordering of the unit list"""
-    return name in ('staggered2', 'staggered3', 'staggered4', 'nested2', 'staggered+outer', 'ladder', 'ladder_cross', 'overlap2')
+    return name in ('staggered2', 'staggered3', 'staggered4', 'nested2', 'staggered+outer', 'ladder', 'ladder_cross', 'overlap2',
+                    'clover', 'clover_b', 'interlock', 'interlock_b')
 
 def sample_orders(rng, n, k):
     base = [list(range(n)), list(range(n - 1, -1, -1))]
@@ -297,7 +307,7 @@ def structured_cases(rng, tier):
                 if full:
                     orders = [list(o) for o in itertools.permutations(range(n))]
                 elif quick:
-                    orders = sample_orders(rng, n, 6 if pri else 3)
+                    orders = sample_orders(rng, n, (24 if name.startswith(('clover', 'interlock')) else 6) if pri else 3)
                 else:
                     orders = sample_orders(rng, n, 40 if pri else 8)
                 for o in orders:
@@ -322,6 +332,18 @@ def gen_cases(rng, tier):
                 cases.append({'kind': 'net', **fs, 'order': list(order)})
     # --- structured families, every ordering of the unit list for the small ones
     cases += structured_cases(rng, tier)
+    # --- Network.sort on nested paths: from_units result with every level shuffled, sorted again
+    n_ns = 120 if quick else 1500
+    for _ in range(n_ns):
+        n = rng.randint(3, 10)
+        fs = gen_flowsheet(rng, n, rng.random() < 0.85)
+        order = list(range(n)); rng.shuffle(order)
+        if rng.random() < 0.75:
+            ends = 'recycle_ends'
+        else:
+            out_sid, in_sid, src, dst = stream_table(fs)
+            ends = [k for k in sorted(src) if rng.random() < 0.3]
+        cases.append({'kind': 'nsort', **fs, 'order': order, 'shuffle': rng.randrange(10 ** 6), 'ends': ends})
     # --- Network.sort on flat paths
     n_sort = 140 if quick else 2500
     for _ in range(n_sort):
@@ -382,6 +404,79 @@ def net_tree(net, uid, sid):
     return {'path': [net_tree(i, uid, sid) if isinstance(i, nw.Network) else uid[i] for i in net.path],
             'recycle': recycle_ids(net.recycle, sid)}
 
+# ---- path surgery: every call of a modelled method that is not nested in another modelled call
+SURGERY = ['_remove_overlap', '_append_linear_network', '_insert_linear_network', '_add_linear_network',
+           'join_linear_network', 'join_recycle_network', '_insert_recycle_network']
+
+def utree(x, uid, sid):
+    """Network as data with its `units` attribute kept apart from the path"""
+    nw = env()['nw']
+    if not isinstance(x, nw.Network): return uid[x]
+    return {'path': [utree(i, uid, sid) for i in x.path], 'recycle': recycle_ids(x.recycle, sid),
+            'units': sorted(uid[u] for u in x.units)}
+
+class SurgeryRecorder:
+    def __init__(self, uid, sid):
+        self.uid, self.sid, self.depth, self.steps, self.sinks = uid, sid, 0, [], []
+    def __enter__(self):
+        nw = env()['nw']; N = nw.Network
+        self.saved = {m: getattr(N, m) for m in SURGERY}
+        self.saved_sink = N.recycle_sink
+        rec = self
+        def wrap(name, orig):
+            def f(self_, *a):
+                top = rec.depth == 0
+                if top:
+                    st = {'op': name, 'self': utree(self_, rec.uid, rec.sid), 'args': [rec.arg(x) for x in a], 'sinks': []}
+                    rec.cur = st
+                rec.depth += 1
+                try:
+                    r = orig(self_, *a)
+                    if top: st['after'] = utree(self_, rec.uid, rec.sid)
+                    return r
+                except ValueError:
+                    if top: st['after'] = None
+                    raise
+                finally:
+                    rec.depth -= 1
+                    if top: rec.steps.append(st)
+            return f
+        for m in SURGERY: setattr(N, m, wrap(m, self.saved[m]))
+        sink0 = self.saved_sink.fget
+        def recycle_sink(self_):
+            r = sink0(self_)
+            rc = self_.recycle
+            if rec.depth > 0 and isinstance(rc, set) and len(rc) > 1:
+                rec.cur['sinks'].append([sorted(rec.sid[i] for i in rc), 99 if r is None else rec.uid[r]])
+            return r
+        N.recycle_sink = property(recycle_sink)
+        return self
+    def arg(self, x):
+        nw = env()['nw']
+        if isinstance(x, nw.Network): return utree(x, self.uid, self.sid)
+        if isinstance(x, (tuple, list)): return [utree(i, self.uid, self.sid) for i in x]
+        if isinstance(x, int): return x
+        return utree(x, self.uid, self.sid)
+    def __exit__(self, *a):
+        N = env()['nw'].Network
+        for m in SURGERY: setattr(N, m, self.saved[m])
+        N.recycle_sink = self.saved_sink
+
+def units_consistent(net):
+    """Network.units equals the set of units in the path, for the network and every sub-network"""
+    nw = env()['nw']
+    def fl(n):
+        out = []
+        for i in n.path: out += fl(i) if isinstance(i, nw.Network) else [i]
+        return out
+    return set(net.units) == set(fl(net)) and all(units_consistent(i) for i in net.path if isinstance(i, nw.Network))
+
+def observe_sort_before(net, ends, uid, sid):
+    nw = env()['nw']
+    return {'before': net_tree(net, uid, sid), 'ends': sorted(sid[s] for s in ends if s in sid),
+            'down': [sorted(uid[x] for x in nw.PathSource(i, ends).units) for i in net.path],
+            'units_ok': units_consistent(net)}
+
 def clean_joins(joins):
     return [{'loops': j['loops'], 'calls': j['calls'], 'ok': j['ok']} for j in joins if j['loops']]
 
@@ -416,19 +511,62 @@ def run_impl(case):
                 raise
             finally:
                 depth[0] -= 1
+        sorts, sdepth, sort0 = [], [0], nw.Network.sort
+        def sort(self, ends):
+            top = sdepth[0] == 0
+            if top:
+                rec = observe_sort_before(self, ends, uid, sid)
+                n_before = len(w)
+            sdepth[0] += 1
+            try:
+                return sort0(self, ends)
+            finally:
+                sdepth[0] -= 1
+                if top:
+                    rec['after'] = net_tree(self, uid, sid)
+                    rec['ok'] = not any(WARN in str(x.message) for x in w[n_before:])
+                    sorts.append(rec)
         nw.find_linear_and_cyclic_paths_with_recycle, nw.Network.join_recycle_network = find, join
+        nw.Network.sort = sort
+        surgery = SurgeryRecorder(uid, sid)
         try:
-            with warnings.catch_warnings(record=True) as w:
+            with surgery, warnings.catch_warnings(record=True) as w:
                 warnings.simplefilter('always')
                 try:
                     net = nw.Network.from_units([units[k] for k in case['order']])
                 except Exception as ex:
-                    return {'raised': type(ex).__name__ + ': ' + str(ex)[:80], 'joins': clean_joins(joins)}
+                    return {'raised': type(ex).__name__ + ': ' + str(ex)[:80], 'joins': clean_joins(joins),
+                            'steps': surgery.steps}
         finally:
             nw.find_linear_and_cyclic_paths_with_recycle, nw.Network.join_recycle_network = find0, join0
+            nw.Network.sort = sort0
         return {'tree': net_tree(net, uid, sid),
                 'all_recycles': sorted(sid[s] for s in net.get_all_recycles()),
-                'warned': any(WARN in str(x.message) for x in w), 'joins': clean_joins(joins)}
+                'warned': any(WARN in str(x.message) for x in w), 'joins': clean_joins(joins), 'sorts': sorts,
+                'steps': surgery.steps}
+    if case['kind'] == 'nsort':
+        # the nested result of from_units, every level shuffled, sorted again by the real Network.sort
+        import random
+        with warnings.catch_warnings():
+            warnings.simplefilter('ignore')
+            net = nw.Network.from_units([units[k] for k in case['order']])
+        r = random.Random(case['shuffle'])
+        def rebuild(n):
+            items = [rebuild(i) if isinstance(i, nw.Network) else i for i in n.path]
+            r.shuffle(items)
+            return nw.Network(items, set(n.recycle) if isinstance(n.recycle, set) else n.recycle)
+        net = rebuild(net)
+        if case['ends'] == 'recycle_ends':
+            ends = set(net.get_all_recycles()) | {s for s in streams.values() if s._sink is None}
+        else:
+            ends = {streams[k] for k in case['ends']}
+        with warnings.catch_warnings(record=True) as w:
+            warnings.simplefilter('always')
+            rec = observe_sort_before(net, ends, uid, sid)
+            net.sort(ends)
+        rec['after'] = net_tree(net, uid, sid)
+        rec['ok'] = not any(WARN in str(x.message) for x in w)
+        return {'sorts': [rec]}
     ends = {streams[s] for s in case['ends']}
     path = [units[k] for k in case['path']]
     down = [sorted(uid[x] for x in nw.PathSource(u, ends).units) for u in path]
@@ -469,6 +607,42 @@ def strict_on_path(case):
     return (all(a not in down[a] for a in p) and
             all(c in down[a] for a in p for b in p for c in p if b in down[a] and c in down[b]))
 
+def call(case):
+    """every stream with its source and sink unit; 99 (= nounit) for a missing end"""
+    out_sid, in_sid, src, dst = stream_table(case)
+    none = lambda x: 99 if x is None else x
+    return clist([f'({k}, {none(src[k])}, {none(dst[k])})' for k in sorted(src)])
+
+def sort_term(case, r):
+    return (f'({cbool(r["units_ok"])} && nsort_case {cedges(case)} {call(case)} {nl(r["ends"])} {ctree(r["before"])} '
+            f'{ctree(r["after"])} {cbool(r["ok"])} {clist(r["down"], nl)})')
+
+def cnet(t):
+    if not isinstance(t, dict): return f'(NU {t})'
+    return '(NN ' + clist([cnet(i) for i in t['path']]) + f' {nl(t["recycle"])} {nl(t["units"])})'
+
+def step_term(case, st):
+    """the model of the surgery method, run on the recorded receiver and arguments, gives the recorded result"""
+    a, S = st['args'], cnet(st['self'])
+    op = st['op']
+    if op == '_remove_overlap': c = f'SRemoveOverlap {S} {nl(a[0]["units"])} {clist([cnet(i) for i in a[1]])}'
+    elif op == '_append_linear_network': c = f'SAppendLinear {S} {cnet(a[0])}'
+    elif op == '_insert_linear_network': c = f'SInsertLinear {S} {a[0]} {cnet(a[1])}'
+    elif op == '_add_linear_network': c = f'SAddLinear {S} {cnet(a[0])}'
+    elif op == 'join_linear_network': c = f'SJoinLinear {S} {cnet(a[0])}'
+    elif op == 'join_recycle_network': c = f'SJoinRecycle {S} {cnet(a[0])}'
+    else: c = f'SInsertRecycle {S} {a[0]} {cnet(a[1])} {clist([cnet(i) for i in a[2]])}'
+    tbl, seen = [], {}
+    for k, v in st['sinks']:
+        if seen.setdefault(tuple(k), v) == v and [k, v] not in tbl: tbl.append([k, v])
+    tb = clist([f'({nl(k)}, {v})' for k, v in tbl])
+    after = 'None' if st['after'] is None else f'(Some {cnet(st["after"])})'
+    return f'step_case {cedges(case)} {call(case)} {tb} ({c}) {after}'
+
+def steps_consistent(st):
+    seen = {}
+    return all(seen.setdefault(tuple(k), v) == v for k, v in st['sinks'])
+
 def join_term(j):
     """the model of from_feedstock's loop-join order gives exactly the observed calls (loop position, network units before)"""
     n0 = j['calls'][0][1] if j['calls'] else []
@@ -479,7 +653,10 @@ def coq_case(case, out):
     if case['kind'] == 'sort':
         return (f'(sort_case {cedges(case)} {nl(case["ends"])} {nl(case["path"])} {nl(out["path"])} '
                 f'{cbool(out["stop"])} {nl(out["recycle"])} {clist(out["down"], nl)} {cbool(strict_on_path(case))})')
-    jt = ' && '.join(join_term(j) for j in out.get('joins', [])) or 'true'
+    if case['kind'] == 'nsort':
+        return sort_term(case, out['sorts'][0])
+    jt = ' && '.join([join_term(j) for j in out.get('joins', [])] + [sort_term(case, r) for r in out.get('sorts', [])]
+                     + [step_term(case, st) for st in out.get('steps', []) if steps_consistent(st)]) or 'true'
     if 'raised' in out:
         return f'({jt} && false)'
     t = ctree(out['tree'])
@@ -489,6 +666,9 @@ def coq_case(case, out):
     return term
 
 def coq_show(case, out):
+    if case['kind'] == 'nsort' or (out.get('sorts') and not out.get('tree')):
+        r = out['sorts'][0]
+        return f'(sort_tree {cedges(case)} {call(case)} {nl(r["ends"])} {ctree(r["before"])}, map (down_item {cedges(case)} {nl(r["ends"])}) {clist([ctree(i) if isinstance(i, dict) else f"(IUnit {i})" for i in r["before"]["path"]])})'
     if case['kind'] == 'sort':
         return (f'(sort_graph {cedges(case)} {nl(case["ends"])} {nl(case["path"])}, '
                 f'map (downstream {cedges(case)} {nl(case["ends"])}) {nl(case["path"])})')
@@ -497,6 +677,9 @@ def coq_show(case, out):
     return f'(check_acyclic {nl(case["order"])} {cedges(case)} {t}, check_cyclic {nl(case["order"])} {cedges(case)} {t} {nl(find_cycle(case))}, flat {t}, all_recycles {t})'
 
 def nontrivial(case, out):
+    if case['kind'] == 'nsort':
+        r = out['sorts'][0]
+        return r['before'] != r['after']
     if case['kind'] == 'sort':
         return out.get('path') != case['path'] or bool(out.get('recycle'))
     return 'tree' in out and case['n'] >= 3
@@ -504,6 +687,18 @@ def nontrivial(case, out):
 def classify(case, out):
     ks = ['kind:' + case['kind'], f'units:{case["n"]}', 'graph:' + ('cyclic' if is_cyclic(case) else 'acyclic')]
     if 'family' in case: ks.append('family:' + case['family'].rstrip('0123456789'))
+    for st in out.get('steps', []):
+        ks.append('step:' + st['op'])
+        if st['after'] is None: ks.append('step:raised')
+        if st['sinks']: ks.append('step:recycle-set-sink-oracle')
+        if not steps_consistent(st): ks.append('step:oracle-inconsistent-skipped')
+    for r in out.get('sorts', []):
+        depth = lambda t: 1 + max([depth(i) for i in t['path'] if isinstance(i, dict)] or [0])
+        ks.append(f'nsort:depth{depth(r["before"])}')
+        ks.append('nsort:' + ('moved' if [str(i) for i in r['before']['path']] != [str(i) for i in r['after']['path']] else 'top-level-unchanged'))
+        if not r['ok']: ks.append('nsort:warned')
+        if sorted(subnets(r['after'])) != sorted(subnets(r['before'])): ks.append('nsort:subnet-changed')
+    if case['kind'] == 'nsort': return ks
     if case['kind'] == 'sort':
         ks.append('sort:reach-' + ('strict-order' if strict_on_path(case) else 'cyclic'))
         ks.append('sort:' + ('moved' if out.get('path') != case['path'] else 'already-ordered'))
@@ -531,6 +726,12 @@ def classify(case, out):
 
 # ------------------------------------------------------------------ direct oracle: the C19 clauses on the real output
 def verdict(case, out):
+    if case['kind'] == 'nsort':
+        r = out['sorts'][0]
+        if sorted(flat(r['after'])) != sorted(flat(r['before'])):
+            return f'nsort: units changed by sort: {flat(r["before"])} -> {flat(r["after"])}'
+        if not r['units_ok']: return 'nsort: Network.units differs from the units of the path'
+        return None
     if case['kind'] == 'sort':
         if sorted(out['path']) != sorted(case['path']):
             return f'sort: result {out["path"]} is not a permutation of {case["path"]}'
